@@ -62,6 +62,9 @@ AcceptVerdicts(b, pre, res, ctx, what) ==
                 IF KF_CovCache(b, cm, h, ctx) THEN "KF-covenant-cache" ELSE "")} ELSE {})
   \cup (IF ok /\ ~c.fees THEN {V("C05", "accepted a transaction paying less than the minimum fee", "")} ELSE {})
   \cup (IF ok /\ ~c.unlocked THEN {V("C13", "accepted a spend of a coin locked by a stake", "")} ELSE {})
+  \* the deliberate legacy rule of Mainnet/Testnet below LEGACY_STAKE_LOCK: outputs of stake transactions are not locked
+  \cup (IF ok /\ ~StakeLockActive(pre.net, h) /\ \E i \in DOMAIN b : \E j \in DOMAIN b[i].ins : b[i].ins[j].id[1] \in DOMAIN StakeMap(pre)
+        THEN {V("C13", "accepted a spend of a coin locked by a stake", "KF-legacy-stake-lock-window")} ELSE {})
   \cup (IF ok /\ ~c.stakeshape THEN {V("C13", "accepted a stake transaction with undecodable data or a non-SYM first output", "")} ELSE {})
   \cup (IF ok /\ ~c.faucet THEN {V("C19", "accepted a faucet on mainnet or a duplicate faucet", "")} ELSE {})
   \cup (IF ok /\ c.resolvable /\ c.wellformed /\ ~c.mint THEN {V("C18", "accepted an ERG mint the rules forbid (proof, age, seed header or reward bound)", "")} ELSE {})
@@ -139,7 +142,11 @@ SealCore(pre, action, txs, rewardid, post) ==
   \cup (IF post.dosc # pre.dosc \/ post.height # pre.height \/ post.net # pre.net \/ StakeMap(post) # StakeMap(pre) \/ SeqSet(post.txset) # SeqSet(pre.txset)
         THEN {V("C07", "sealing changed DOSC speed, height, network, stakes or the transaction set", "")} ELSE {})
   \cup (IF \E d \in denoms : Gt(Supply(post, d), Add(Supply(pre, d), issued(d)))
-        THEN {V("C01", "sealing left more of some denomination in existence than subsidy, peg adjustment and minted liquidity allow", "")} ELSE {})
+        THEN {V("C01", "sealing left more of some denomination in existence than subsidy, peg adjustment and minted liquidity allow",
+                \* the deliberate legacy rule of Mainnet/Testnet below LEGACY_DEPOSIT: a deposit keeps its second coin
+                IF LegacyNet(pre.net) /\ h < LEGACY_DEPOSIT
+                   /\ \A d \in denoms : Leq(Supply(post, d), Add(Add(Supply(pre, d), issued(d)), IF d \in DOMAIN e.legacyKept THEN e.legacyKept[d] ELSE Zero))
+                THEN "KF-legacy-deposit-window" ELSE "")} ELSE {})
 
 HeaderVerdicts(st) ==
     LET hd == st.header IN
